@@ -21,6 +21,12 @@ fn iso_from(v: &[f64]) -> Pose {
     Isometry3::from_parts(Translation3::new(v[0], v[1], v[2]), UnitQuaternion::from_quaternion(nalgebra::Quaternion::new(v[3], v[4], v[5], v[6])))
 }
 fn rand_iso(rng: &mut Rng, axial: bool) -> Pose {
+    if !axial && rng.below(5) == 0 {
+        // a wrapper that only rotates (zero offset) or only shifts (identity rotation)
+        let ax = nalgebra::Unit::new_normalize(Vector3::new(rng.range(-1.0, 1.0), rng.range(-1.0, 1.0), rng.range(-1.0, 1.0) + 0.01));
+        return if rng.below(2) == 0 { Isometry3::from_parts(Translation3::new(0.0, 0.0, 0.0), UnitQuaternion::from_axis_angle(&ax, rng.range(-3.0, 3.0))) }
+               else { Isometry3::from_parts(Translation3::new(rng.range(-0.3, 0.3), rng.range(-0.3, 0.3), rng.range(-0.3, 0.3)), UnitQuaternion::identity()) };
+    }
     if axial {
         Isometry3::from_parts(Translation3::new(0.0, 0.0, rng.range(0.0, 0.4)), UnitQuaternion::from_axis_angle(&Vector3::z_axis(), rng.range(-3.0, 3.0)))
     } else {
